@@ -128,9 +128,9 @@ man = {
     "setup_cmd": "bin/setup",
     "hooks": {
         "guard": "pornin_crrl_verif",
-        "enable": "RUSTFLAGS='--cfg pornin_crrl_verif' (checks append their drivers/harnesses to a scratch copy of /repo; /repo itself carries no hook so far)",
+        "enable": "RUSTFLAGS='--cfg pornin_crrl_verif' for the drivers/harnesses that checks append to a scratch copy of /repo; '--cfg pornin_crrl_verif_cut' additionally turns on the in-repo hook (inline(never) on cut-point functions) for the protocol-glue checks",
         "baseline_off_cmd": "cd /repo && cargo test --workspace --no-fail-fast --offline",
-        "source_commits": [],
+        "source_commits": ["7439f2c"],
         "add_only": True,
     },
     "engines": [
